@@ -9,6 +9,7 @@ import shutil
 from .. import classify, clock, drive, hist, listing, world
 
 SPELLING = False  # this monitor controls the spelling of path arguments itself
+TECHNIQUE = 'runtime monitoring: byte-for-byte differential runs across root locations, path spellings and seeded permutations of os.listdir/os.scandir under an injected clock'
 LEVEL = "exploration"
 RULE = (
     "case = tree (flat or with 1-4 sibling / chained child histories) sealed by the same command sequence at a baseline "
